@@ -1,0 +1,73 @@
+//! Verification hooks. Compiled only with `--features verif`; never part of a normal build.
+//!
+//! * knobs replacing two size constants (`MAX_CACHE_SIZE`, `MMAP_CROSSOVER_BYTES`) so that the
+//!   batch-splitting and file-IO code paths can be reached with small data;
+//! * decoder entry points for the on-disk codecs (header, change records).
+
+use std::{
+    cmp::Ordering as CmpOrdering,
+    ops::Div,
+    sync::atomic::{AtomicUsize, Ordering},
+};
+
+pub use rawdb::verif::*;
+
+const DEFAULT: usize = 1024 * 1024 * 1024;
+
+static KNOBS: [AtomicUsize; 2] = [AtomicUsize::new(DEFAULT), AtomicUsize::new(DEFAULT)];
+
+/// Stands in for a `usize` constant; every use reads the current setting.
+#[derive(Debug, Clone, Copy)]
+pub struct Knob<const ID: usize>;
+
+impl<const ID: usize> Knob<ID> {
+    #[inline]
+    pub fn get(self) -> usize {
+        KNOBS[ID].load(Ordering::Relaxed)
+    }
+
+    #[inline]
+    pub fn div_ceil(self, rhs: usize) -> usize {
+        self.get().div_ceil(rhs)
+    }
+}
+
+impl<const ID: usize> Div<usize> for Knob<ID> {
+    type Output = usize;
+    #[inline]
+    fn div(self, rhs: usize) -> usize {
+        self.get() / rhs
+    }
+}
+
+impl<const ID: usize> PartialEq<Knob<ID>> for usize {
+    #[inline]
+    fn eq(&self, other: &Knob<ID>) -> bool {
+        *self == other.get()
+    }
+}
+
+impl<const ID: usize> PartialOrd<Knob<ID>> for usize {
+    #[inline]
+    fn partial_cmp(&self, other: &Knob<ID>) -> Option<CmpOrdering> {
+        self.partial_cmp(&other.get())
+    }
+}
+
+pub(crate) const MAX_CACHE_SIZE: Knob<0> = Knob;
+pub(crate) const MMAP_CROSSOVER_BYTES: Knob<1> = Knob;
+
+/// Batch limit in bytes of `WritableVec::batch_limit_reached` (default 1 GiB).
+pub fn set_max_cache_size(bytes: usize) {
+    KNOBS[0].store(bytes.max(1), Ordering::Relaxed);
+}
+
+/// Range size in bytes above which scans use the file-IO sources (default 1 GiB).
+pub fn set_mmap_crossover_bytes(bytes: usize) {
+    KNOBS[1].store(bytes, Ordering::Relaxed);
+}
+
+pub fn reset_knobs() {
+    KNOBS[0].store(DEFAULT, Ordering::Relaxed);
+    KNOBS[1].store(DEFAULT, Ordering::Relaxed);
+}
